@@ -24,6 +24,7 @@ import PrimaiteModel.Gen.NondetSeeding
 import PrimaiteModel.Lemmas.Noninterf
 import PrimaiteModel.Lemmas.NoninterfSites
 import PrimaiteModel.Lemmas.NoninterfTopo
+import PrimaiteModel.Lemmas.NoninterfOwnState
 import PrimaiteModel.Props.C10
 
 namespace Primaite.Noninterf
@@ -51,6 +52,13 @@ inductive Discharge
   | seededRng
   /-- the seeding call itself, with the argument `seed` (Gen fact) -/
   | seeding
+  /-- `getstate` / `setstate` of a process-wide generator inside the decorator `own_generator_state` (Gen fact `stateAccess … inWrapper`;
+  the decorator's shape - restore both generators before the wrapped operation, save both afterwards under the same key, applied to
+  `__init__` / `reset` / `step` - is the Gen obligation `C03_gen_own_generator_state`): not a draw. The state read is the one the
+  environment's own operation just left, the state written is the one its own last operation left: INSTANCE-LOCAL by construction.
+  Lemma (`runOwned_eq_runOps`): with these accesses around every operation, whatever else uses the process-wide generators in between
+  cannot move a draw - the run IS the run of the environment's operations alone. -/
+  | ownGeneratorState
   /-- a draw from an unseeded generator inside `if generate_seed_value:` (Gen fact): executed only when the configuration
   asks for a generated seed — outside the property's hypothesis "same configured seed"; with `generate_seed_value = False`
   `set_random_seed` never seeds from entropy (lemma over the regenerated shape). -/
@@ -108,7 +116,7 @@ def Discharge.basis : Discharge → Basis
   -- since round 7 the premise "the code's loop IS this consumer" is a Gen fact too: the loop is translated from the source and checked
   -- well-formed with the matching use (`C03_gen_loops_order_free`, Props/C03Loops.lean); a set DECLARATION with `setLengthOnly` must
   -- have no iteration / escape site at all (`declUses []`)
-  | .setToSet | .setNoEffect | .setLengthOnly | .setDictByKey => .mechanical
+  | .setToSet | .setNoEffect | .setLengthOnly | .setDictByKey | .ownGeneratorState => .mechanical
   | .hashNotIterated | .setMembershipOnly | .setIntHash | .idTextEqOnly => .trusted
   | _ => .lemma
 
@@ -138,6 +146,8 @@ def Discharge.supportedBy : Discharge → Fact → Bool
   | .seededRng, _ => false
   | .seeding, .seedCall _ arg atCall => arg == "seed" && atCall
   | .seeding, _ => false
+  | .ownGeneratorState, .stateAccess fam _ atCall inWrapper => atCall && inWrapper && (fam == .py || fam == .np)
+  | .ownGeneratorState, _ => false
   | .unseededByConfig, .draw fam _ guarded => fam == .entropy && guarded
   | .unseededByConfig, _ => false
   | .hashNotIterated, .hashDunder _ => true
@@ -196,6 +206,14 @@ def Discharge.Justified : Discharge → Prop
   | .seeding =>
     -- after `set_random_seed(s)` the generators do not depend on where they were
     ∀ (g : Fixed) (s : Nat) (w w' : World), resetRng g (some s) w = resetRng g (some s) w'
+  | .ownGeneratorState =>
+    -- operations wrapped in restore-own / save-own: foreign draws (any family, any number, anywhere) are dead, and so is the
+    -- process-wide state the environment finds
+    (∀ (ι Cfg σ Act : Type) [DecidableEq ι] (g : Fixed) (ρ : Rho ι) (sim : Sim Cfg σ Act) (sched : Nat → Cfg) (ops : List (Op Act))
+        (q : OProc σ), runOwned g ρ sim sched q ops = runOps g ρ sim sched q.install (dropForeign ops)) ∧
+    (∀ (ι Cfg σ Act : Type) [DecidableEq ι] (g : Fixed) (ρ : Rho ι) (sim : Sim Cfg σ Act) (sched : Nat → Cfg) (q : OProc σ)
+        (r : Fam → Nat) (ops : List (Op Act)),
+        runOwned g ρ sim sched { q with p := { q.p with w := { q.p.w with rng := r } } } ops = runOwned g ρ sim sched q ops)
   | .unseededByConfig =>
     -- without `generate_seed_value`, neither `set_random_seed` nor `reset` ever seeds from entropy
     ∀ x : Option Int, codeShape.setRandomSeed x false ≠ .fromEntropy ∧ codeShape.resetAct x false ≠ .fromEntropy
@@ -261,6 +279,9 @@ theorem Discharge.justified : ∀ d : Discharge, d.Justified := by
     intro ι ι' _ _ g ρ ρ' hv hv' f n k w hf hk
     exact interp_indep g hv hv' _ w ⟨hf, hk⟩
   case seeding => intro g s w w'; rfl
+  case ownGeneratorState =>
+    exact ⟨fun ι Cfg σ Act _ g ρ sim sched ops q => runOwned_eq_runOps g ρ sim sched ops q,
+           fun ι Cfg σ Act _ g ρ sim sched q r ops => runOwned_process_state_irrelevant g ρ sim sched q r ops⟩
   case unseededByConfig => exact setRandomSeed_no_entropy
   case setSorted => exact sortedIter_invariant
   case setToSet => exact listenPorts_invariant
@@ -300,6 +321,10 @@ def table : List (Site × Discharge) := [
   (⟨"game/science.py", "simulate_trial", .pyRandom, "random()", 0⟩, .seededRng),
   (⟨"game/science.py", "topological_sort", .setDecl, "parameter graph receives a container of sets", 0⟩, .setDeclCovered),
   (⟨"game/science.py", "topological_sort.dfs", .setIter, "for <- graph.get(node, [])", 0⟩, .setTopo),
+  (⟨"session/environment.py", "own_generator_state.wrapper", .npRandom, "np.random.get_state()", 0⟩, .ownGeneratorState),
+  (⟨"session/environment.py", "own_generator_state.wrapper", .npRandom, "np.random.set_state(own[1])", 0⟩, .ownGeneratorState),
+  (⟨"session/environment.py", "own_generator_state.wrapper", .pyRandom, "random.getstate()", 0⟩, .ownGeneratorState),
+  (⟨"session/environment.py", "own_generator_state.wrapper", .pyRandom, "random.setstate(own[0])", 0⟩, .ownGeneratorState),
   (⟨"session/environment.py", "set_random_seed", .npRandom, "np.random.default_rng()", 0⟩, .unseededByConfig),
   (⟨"session/environment.py", "set_random_seed", .npRandom, "np.random.seed(seed)", 0⟩, .seeding),
   (⟨"session/environment.py", "set_random_seed", .pyRandom, "random.seed(seed)", 0⟩, .seeding),
